@@ -181,9 +181,11 @@ where
     Wr: writer::Stats<TW> + writer::Normalized + 'static,
     Wr::Cli: Clone,
 {
+    // a third of the configurations narrow the run by a `--name` and a third by a `--tags`
+    // filter that accept every scenario: the run, parser errors included, is the same
     let opts = cli::Opts {
-        re_filter: None,
-        tags_filter: None,
+        re_filter: (cfg.name.len() % 3 == 0).then(|| regex::Regex::new("^F").expect("regex")),
+        tags_filter: (cfg.name.len() % 3 == 1).then(|| "not @no-such-tag".parse().expect("tag expression")),
         parser: cli::Empty,
         runner: spec::runner_cli(&cfg),
         writer: wcli,
